@@ -148,7 +148,7 @@ fn raw_oracle(c: &RawCase, st: &mut Stats) -> Result<(), String> {
 }
 
 /// load_u32 / load_bytes / AccessStructure::from_bytes against the model
-fn helpers(s: &[u8], st: &mut Stats) -> Result<(), String> {
+pub fn helpers(s: &[u8], st: &mut Stats) -> Result<(), String> {
   let got = no_panic(|| adss::load_bytes(s).map(|b| b.to_vec()))
     .map_err(|p| format!("load_bytes panicked ({p}) on {}", hex::encode(s)))?;
   let want = layout::read_chunk(s, 0).map(|r| s[r].to_vec());
@@ -300,6 +300,8 @@ pub fn property() -> Property {
       prop_sub("honest_roundtrip", 1500, 30000, honest_strat, honest_oracle),
       prop_sub("mutation_families", 1200, 40000, wire_case, wire_oracle),
       prop_sub("raw_strings", 30000, 1_000_000, raw_strat, raw_oracle),
+      crate::fuzzentry::fuzz_sub("fuzzbytes_decode", "decode", "C08", 20000, 400000),
+      crate::fuzzentry::artefact_sub("artefact_decode", "decode", "C08"),
     ],
   }
 }
